@@ -88,8 +88,8 @@ func isZeroConst(v ssa.Value) bool {
 
 func c16(r *core.Run) {
 	p := r.P
-	r.Explanation = "Decides on the SSA of lib/executors (+ the containers of lib/store/sqlx and lib/stat), for every path: the container's AddTask/RemoveAll and the `guarded` flag are used only with pe.lock held (incl. closures run synchronously), lock balanced; container state written by AddTask is touched by no other function than AddTask/RemoveAll; when AddTask reports full, RemoveAll and exactly one inflight increment happen before the lock is released and the removed batch is what Add sends to the flusher, after which Add waits for the confirmation; the flusher decrements inflight exactly once per received batch, enters the execution (WaitGroup.Add) before confirming, and executes exactly the received batch; every execution is preceded by exactly one enterExecution and ends in a deferred WaitGroup.Done; Flush executes what RemoveAll returned under the lock; Wait flushes, then waits; the flusher goroutine defers Flush before its loop and returns only when the quit test said so; the quit test clears `guarded` only with inflight == 0 read under the same lock hold, and reports true only then; a flusher is started (asynchronously) exactly when `guarded` was false, after setting it; thresholds are `len(tasks) >= maxTasks` / `size >= maxChunkSize` measured after the append; RemoveAll returns the state it then resets."
-	r.NotDecided = "exactly-once execution and batch order over interleavings of Add/tick/Flush/Wait; the idle-quit timing; behaviour of the execute callbacks; sync.WaitGroup / channel semantics."
+	r.Explanation = "Decides on the SSA of lib/executors (+ the containers of lib/store/sqlx and lib/stat), for every path: the container's AddTask/RemoveAll and the `guarded` flag are used only with pe.lock held (incl. closures run synchronously), lock balanced; container state written by AddTask is touched by no other function than AddTask/RemoveAll; when AddTask reports full, RemoveAll and exactly one inflight increment happen before the lock is released and the removed batch is what Add sends to the flusher, after which Add waits for the confirmation; the flusher decrements inflight exactly once per received batch, enters the execution (WaitGroup.Add) before confirming, and executes exactly the received batch; every execution is preceded by exactly one enterExecution and ends in a deferred WaitGroup.Done; Flush executes what RemoveAll returned under the lock; Wait flushes, then waits; the flusher goroutine defers Flush before its loop and returns only when the quit test said so; the quit test clears `guarded` only with inflight == 0 read under the same lock hold, and reports true only then; a flusher is started (asynchronously) exactly when `guarded` was false, after setting it; thresholds are `len(tasks) >= maxTasks` / `size >= maxChunkSize` measured after the append; every container handed to NewPeriodicalExecutor that can ask for a flush at all (bulk, chunk, sqlx dbInserter) does so whenever the count/size measured after its update has reached the limit field / a declared constant of its package (non-strict threshold in any spelling); every function that takes the tasks out of the container and then executes them (Flush) has counted the execution into the wait group before the removal or within the removal's lock hold; RemoveAll returns the state it then resets."
+	r.NotDecided = "exactly-once execution and batch order over interleavings of Add/tick/Flush/Wait; the idle-quit timing; behaviour of the execute callbacks; sync.WaitGroup / channel semantics; for a constant size limit only that the effective threshold is one of the package's declared integer constants (which one is `the` limit is not decided); triggers spelled other than as an ordered comparison of the updated count/size with limit+c (e.g. ==) are reported as not understood."
 
 	curProg = p
 	funcs := c16Funcs(p, exPkg)
@@ -663,12 +663,17 @@ func c16(r *core.Run) {
 		}
 		for _, x := range exs {
 			arg := core.Forward(core.AsCall(x).Common().Args[1])
-			ok := core.IsResult(arg, 0, isRemoveAll)
+			// the removed batch: RemoveAll's result, also when it travels through a variable that is
+			// assigned once, inside a closure run under the lock (`pe.Sync(func() { tasks = … })`)
+			removed := func(v ssa.Value) bool {
+				return core.IsResult(v, 0, isRemoveAll) || core.IsResult(resolve(v), 0, isRemoveAll)
+			}
+			ok := removed(arg)
 			if c, isCall := arg.(*ssa.Call); isCall && !ok {
 				if g := calleeFn(c); g != nil && inPkg[g] {
 					ok = len(core.Returns(g)) > 0
 					for _, ret := range core.Returns(g) {
-						if !core.IsResult(core.Result(ret, 0), 0, isRemoveAll) {
+						if !removed(core.Result(ret, 0)) {
 							ok = false
 						}
 					}
@@ -1055,6 +1060,7 @@ func c16(r *core.Run) {
 		o.Site(n)
 	})
 
+	c16Extra(r, &c16Env{p: p, funcs: funcs, inPkg: inPkg, conts: conts, isEnter: isEnter, isRemoveAll: isRemoveAll, isExecute: isExecute, async: wg.async})
 }
 
 // isFreshStore: the store initialises a field of an object allocated in the same function (constructor).
